@@ -8,6 +8,11 @@ denoted roots (hash + deep structure), in order.
 Negative (each must raise some exception, never return): every proper prefix, 1..8 appended bytes, with CRC present
 every single-bit flip, reference index rewritten to >= cells (dangling), < own index (backward), = own index (self)
 with the CRC recomputed or absent.
+Temporaries (both directions): programs of parses whose input objects each die before the next one is made - intact reference
+encodings of 2 DAGs of the same shape (same length, other content) and their corruptions that keep the length (one flipped bit in
+front of / inside the checksum field of CRC-protected input) or change it (cut, extended), as private bytes copies and as hex /
+base64 text, 0.5 KB .. 550 KB (hex text of >= 2^20 characters); the next object gets the address of the dead one (counted in classes
+temporaries:*). Per step: intact => exactly the denoted roots, corrupted => an exception, whatever was parsed before.
 Not asserted: rejection of other malformed input (bad completion tag, non-zero flags, absent cells).
 One-directional fuzz: for randomly byte-mutated encodings, if the strict reference decoder accepts, the library must
 return the same roots; otherwise nothing is asserted (except termination under the CPU ceiling).
@@ -21,6 +26,8 @@ from harness.ref.refcrc import crc32c
 RULE = ('positive case = DAG spec + encoder freedoms (magic, size/off_bytes slack, idx, cache bits, crc, stored-hash subset, '
         'root list, order priorities); negative case = such an encoding + a corruption family (all proper prefixes; 1..8 '
         'appended bytes; all single-bit flips when CRC-protected; dangling/backward/self reference rewrite, also on cells no root reaches; fewer cells declared than stored). positive cases are also given as bytes / str subclasses and parsed into a Cell subclass with a re-entrant constructor. '
+        'temporaries: case = (cell count, cell sizes, arity, 2 content tags, encoder freedoms, program of steps (intact | one-bit flip | '
+        'cut | extend, bag, form bytes/hex/base64, position)), every input object dropped before the next of the same size is made; '
         'non-trivial = uses a freedom the library\'s own writer never uses (lean magic, slack widths, stored hashes, '
         'several roots, non-default order) or is a corruption case; distinct = distinct case')
 ASSUMPTIONS = ['harness/ref/refboc.py transcription of crypto/tl/boc.tlb', 'refcell.py for denoted hashes']
@@ -346,6 +353,164 @@ def enum_special_bags(tier):
         yield {'spec': boccases.bag_of_total_length(total), 'enc': dict(base), 'roots': [-1]}
 
 
+# -- temporaries: every input object dies before the next one of the same size is made ------------------------------------------
+
+def family_spec(n, sizes, arity, tag):
+    """n-cell `arity`-ary tree (arity 1: a chain); cell i has sizes[i % len(sizes)] data bits: the same shape and the same bag
+    LENGTH for every tag, other data bits in every cell"""
+    spec = []
+    for i in range(n):
+        h = n - 1 - i
+        refs = [n - 1 - c for c in range(arity * h + 1, arity * h + arity + 1) if c < n]
+        spec.append({'k': 'o', 'b': [sizes[i % len(sizes)], 2, tag * 1000003 + i], 'r': refs})
+    return spec
+
+
+def _b64(buf):
+    import base64
+    return base64.b64encode(buf).decode()
+
+
+# one input object per call, made in one step from a buffer that is kept; nobody else holds it
+TEMP_FORMS = {'bytes': lambda buf: bytes(memoryview(buf)), 'hex': lambda buf: buf.hex(), 'base64': _b64}
+
+
+def _parse_temporary(form, buf):
+    """the input object lives in this frame only; it is gone when the next one is made"""
+    from pytoniq_core.boc.cell import Cell
+    data = TEMP_FORMS[form](buf)
+    addr = id(data)
+    ok, got = call(Cell.from_boc, data)
+    if not ok:
+        # keep a description, not the exception: its traceback holds the frames of the call (and with them the input object), and
+        # through f_back this frame, which would hold the exception in turn - a cycle that keeps the input alive until the next
+        # garbage collection. An application's `except Exception as e:` block drops `e` at its end just like this
+        got = (type(got).__name__, exc_sig(got), repr(got))
+    del data
+    return addr, ok, got
+
+
+def check_temporaries(case):
+    """History: a program of parses, each of an input object that is dropped before the next one is made - intact encodings of
+    2 DAGs of the same shape (same length, other content) and corruptions of them that keep the length (one flipped bit, when
+    CRC-protected) or change it (cut, extended), as bytes copies and as hex / base64 text (the decoded buffer is a temporary of the
+    parser itself). The allocator hands the next object the address of the dead one, so whatever the parser remembers about 'this
+    buffer' (by id(), by address) - that it was verified, what it parsed to - now describes another input.
+    Oracle, per step: intact => exactly the denoted roots; corrupted => an exception."""
+    from harness.core import note
+    steps = case['steps']
+    protect = any(s[0] == 'flip' for s in steps)
+    bags = []
+    for tag in case['tags']:
+        cells = dag.build_ref(family_spec(case['n'], case['sizes'], case['arity'], tag))
+        if case.get('plain'):           # big bags: generic magic, minimal widths, CRC - one pass of the reference encoder
+            data, roots = refboc.encode([cells[-1]], has_crc=True), [cells[-1]]
+        else:
+            data, roots, order, size = _encode(case, cells, force_crc=True if protect else None)
+        bags.append((data, roots))
+    # every buffer the inputs are made from exists before the first parse: between the death of one input object and the birth
+    # of the next nothing of that size is allocated
+    prepared = []
+    for kind, k, form, pos in steps:
+        data, roots = bags[k % len(bags)]
+        if kind == 'intact':
+            buf, what = data, 'intact'
+        elif kind == 'flip':
+            # pos >= 0: bit pos (mod) of everything in front of the checksum field; pos < 0: counted from the end (-1 .. -32 the
+            # checksum field, -33 the last bit in front of it)
+            b = pos % ((len(data) - 4) * 8) if pos >= 0 else (len(data) * 8 + pos) % (len(data) * 8)
+            buf = bytearray(data)
+            buf[b // 8] ^= 0x80 >> (b % 8)
+            what = f'bitflip:{b}/{len(data) * 8}'
+        elif kind == 'cut':
+            buf, what = data[:len(data) - 1 - pos % min(8, len(data) - 1)], 'truncated'
+        elif kind == 'extend':
+            buf, what = data + bytes(((pos >> 3) + j) & 0xFF for j in range(1 + pos % 8)), 'extended'
+        else:
+            raise ValueError(kind)
+        prepared.append((buf, what))
+    last = None
+    for (kind, k, form, pos), (buf, what) in zip(steps, prepared):
+        data, roots = bags[k % len(bags)]
+        addr, ok, got = _parse_temporary(form, buf)
+        note('temporaries:input-at-the-address-of-the-dead-one' if addr == last else 'temporaries:input-at-a-new-address')
+        last = addr
+        def hist():         # (made only when something is wrong: a string of about the input's size would take the dead input's place)
+            return f'bag {k % len(bags)} ({len(data)} bytes, {case["n"]} cells) as {form}; steps={steps}'
+        if kind != 'intact':
+            if ok:
+                same = isinstance(got, list) and [getattr(x, 'hash', None) for x in got] == [r.repr_hash() for r in roots]
+                return Fail(f'temporaries/corruption-accepted/{what.split(":")[0]}/{form}',
+                            f'{what} of {hist()}: returned {got!r}'[:600] + (' = the roots of the intact bag' if same else ''))
+            continue
+        if not ok:
+            return Fail(f'temporaries/valid-encoding-rejected/{form}/{got[0]}', f'{hist()}: {got[1]}: {got[2]}')
+        if not isinstance(got, list) or [getattr(x, 'hash', None) for x in got] != [r.repr_hash() for r in roots]:
+            other = [j for j, (_, rs) in enumerate(bags) if isinstance(got, list) and [getattr(x, 'hash', None) for x in got] == [r.repr_hash() for r in rs]]
+            if other:
+                return Fail(f'temporaries/roots-of-an-earlier-input-of-the-same-length/{form}', f'{hist()}: got the roots of bag {other[0]}')
+            return Fail(f'temporaries/roots-differ/{form}', f'{hist()}: {got!r}'[:600])
+        for r, l in zip(roots, got):
+            diff = rc.structurally_equal_lib(r, l)
+            if diff:
+                return Fail(f'temporaries/structure-differs/{form}', f'{hist()}: {diff}')
+        del got, l
+    return None
+
+
+_TEMP_ENC = {'magic': 'generic', 'size_extra': 0, 'off_extra': 0, 'idx': False, 'cache': False, 'crc': True, 'hashes': [], 'cachesel': [], 'prio': [0]}
+
+
+def enum_temporaries(tier):
+    """bag lengths ~0.5 / 5 / 70 / 150 / 550 KB (below and above 64 KiB, the allocator's 128 KiB, 2^20 characters of hex text)
+    x 3 forms x (plain CRC-protected | index + lean magic | stored hashes + slack widths)"""
+    sizes = [1016, 1016, 1023, 1009]
+    M = 1 << 40
+    full = [['intact', 0, 0], ['flip', 0, M // 2 + 3], ['intact', 1, 0], ['flip', 1, 77], ['intact', 0, 0], ['flip', 0, -33], ['intact', 0, 0],
+            ['flip', 0, -5], ['intact', 1, 0], ['cut', 1, 2], ['intact', 0, 0], ['extend', 0, 11], ['intact', 1, 0], ['intact', 0, 0],
+            ['flip', 1, M // 3], ['flip', 0, M // 3]]
+    short = [['intact', 0, 0], ['flip', 0, M // 2 + 3], ['intact', 1, 0], ['intact', 0, 0], ['flip', 0, -33]]
+    encs = [dict(_TEMP_ENC), dict(_TEMP_ENC, magic='idx_crc', idx=True), dict(_TEMP_ENC, idx=True, size_extra=1, off_extra=1, hashes=[0, 5, 6])]
+    for n in (3, 40, 520):
+        for form in TEMP_FORMS:
+            for e, enc in enumerate(encs):
+                yield {'n': n, 'sizes': sizes, 'arity': 4, 'tags': [1, 2], 'enc': enc, 'roots': [-1], 'steps': [[kd, k, form, p] for kd, k, p in full],
+                       'name': f'cells={n}/{form}/enc{e}'}
+    for n, forms in ((1100, list(TEMP_FORMS)), (4100, ['hex'])) + (((8000, list(TEMP_FORMS)),) if tier != 'quick' else ()):
+        for form in forms:
+            yield {'n': n, 'sizes': sizes, 'arity': 4, 'tags': [1, 2], 'enc': dict(_TEMP_ENC), 'roots': [-1], 'plain': True,
+                   'steps': [[kd, k, form, p] for kd, k, p in short], 'name': f'cells={n}/{form}/plain'}
+
+
+def strat_temporaries(tier):
+    step = st.tuples(st.sampled_from(['intact', 'intact', 'intact', 'flip', 'flip', 'cut', 'extend']), st.integers(0, 1),
+                     st.sampled_from(sorted(TEMP_FORMS)), st.one_of(st.integers(-64, 63), st.integers(0, 10 ** 7))).map(list)
+    return st.fixed_dictionaries({
+        'n': st.one_of(st.integers(1, 12), st.integers(1, 90)), 'arity': st.integers(1, 4),
+        'sizes': st.lists(st.one_of(st.integers(1, 1023), st.sampled_from([8, 256, 1016, 1023])), min_size=1, max_size=4),
+        'tags': st.lists(st.integers(0, 999), min_size=2, max_size=2, unique=True),
+        'enc': st_enc(), 'roots': st_roots(), 'steps': st.lists(step, min_size=2, max_size=10)})
+
+
+def classify_temporaries(case):
+    yield from classify({'enc': case['enc'], 'roots': case['roots'], 'spec': [{'k': 'o'}]})
+    n = case['n']
+    yield 'nodes=' + ('1' if n == 1 else '2-8' if n <= 8 else '9-32' if n <= 32 else '33-254' if n < 255 else '255+')
+    steps = case['steps']
+    for f in sorted({s[2] for s in steps}):
+        yield 'form=' + f
+    for a, b in zip(steps, steps[1:]):
+        if a[0] == 'intact' and b[0] == 'flip' and a[1] == b[1] and a[2] == b[2]:
+            yield 'one-bit-flipped-right-after-the-intact-bag-in-the-same-form'
+            break
+    for a, b in zip(steps, steps[1:]):
+        if a[0] == b[0] == 'intact' and a[1] != b[1] and a[2] == b[2]:
+            yield 'another-bag-of-the-same-length-in-the-same-form-next'
+            break
+    if 'name' in case:
+        yield case['name']
+
+
 def st_enc():
     return st.fixed_dictionaries({
         'magic': st.sampled_from(['generic', 'generic', 'generic', 'idx', 'idx_crc']),
@@ -412,6 +577,11 @@ SUBCHECKS = [
                              'bags of exactly 65 537 / 131 073 / 2^20 bytes before the checksum'),
     Sub('corruptions', check_neg, strategy=strat_neg, classify=classify, nontrivial=nt, n=(900, 20000), shards=(16, 32), case_cpu_s=60),
     Sub('byte-mutations-one-directional', check_fuzz, strategy=strat_fuzz, classify=classify, nontrivial=nt, n=(1500, 60000), shards=(8, 32)),
+    Sub('temporaries-of-equal-size', check_temporaries, enum=enum_temporaries, classify=classify_temporaries, shards=(12, 16), case_cpu_s=300,
+        note='programs of parses whose input objects (bytes copy / hex / base64 text of intact encodings of 2 same-length bags and of '
+             'their one-bit, cut and extended corruptions; 0.5 KB .. 550 KB) each die before the next is made; classes temporaries:* '
+             'count how often the next object really got the address of the dead one'),
+    Sub('temporaries-random', check_temporaries, strategy=strat_temporaries, classify=classify_temporaries, n=(120, 5000), shards=(4, 16)),
     Sub('raw-bytes', check_raw, enum=enum_raw, shards=(2, 2), note='plain byte strings: the campaign corpus and its 1-byte truncations/extensions; '
         'inputs found by the Atheris campaign replay through this sub-check'),
     Sub('atheris-campaign', check_campaign, enum=enum_campaigns, shards=(8, 8), tiers=('thorough',), case_cpu_s=3600,
